@@ -7,7 +7,7 @@
    - `file` is the unread part of the FILE: getc = uncons, ungetc = cons (glibc keeps pushed-back bytes
      on a stack; the `..` case may push back twice in a row, which ISO C does not guarantee -- trusted).
    - `loc.line`, `loc.col` are size_t: every update is taken mod 2^64.
-   - error() exits: modelled by the result `Error loc msg`.  Loops take fuel; `OutOfFuel` is a distinct result
+   - error() exits: modelled by the result `Error loc msg` (fatal() on a read error is not modelled: getc never fails).  Loops take fuel; `OutOfFuel` is a distinct result
      which the theorems exclude.  `#define/#undef/#pragma` belong to C12: result `Unsupported`. *)
 From Coq Require Import List NArith ZArith Bool.
 From Cproc Require Import Gen.Keywords.
@@ -30,6 +30,7 @@ Record scanner := mkscanner {
 
 Inductive msg :=
 | EInvalidHexEscape | EInvalidEscape
+| ENullInChar | ENullInString
 | ENewlineInChar | EEOFInChar | ENewlineInString | EEOFInString | EEOFInComment
 | EExpectedDirective      (* expected identifier newline, or number after '#' *)
 | ENotImplemented         (* #if #ifdef #ifndef #elif #endif #include #error *)
@@ -166,10 +167,10 @@ Fixpoint xdigits_loop (fuel : nat) (s : scanner) : result scanner :=      (* do 
     if chr_test isxdigit s then xdigits_loop n s else Ok s
   end.
 
-(* strchr(<the eleven simple-escape characters>, c) != NULL: the terminating NUL is part of the string *)
+(* s->chr && strchr(<the eleven simple-escape characters>, s->chr) *)
 Definition simple_escape (c : N) : bool :=
   (c =? 39) || (c =? 34) || (c =? 63) || (c =? 92) || (c =? 97) || (c =? 98) || (c =? 102) ||
-  (c =? 110) || (c =? 114) || (c =? 116) || (c =? 118) || (c =? 0).
+  (c =? 110) || (c =? 114) || (c =? 116) || (c =? 118).
 
 Definition escape (fuel : nat) (s : scanner) : result scanner :=
   let s := nextchar s in
@@ -186,24 +187,25 @@ Definition escape (fuel : nat) (s : scanner) : result scanner :=
   else if chr_test simple_escape s then Ok (nextchar s)
   else Error (sloc s) EInvalidEscape.
 
-Fixpoint quoted_loop (fuel : nat) (q : N) (k : kind) (enl eeof : msg) (s : scanner) : result (kind * scanner) :=
+Fixpoint quoted_loop (fuel : nat) (q : N) (k : kind) (enul enl eeof : msg) (s : scanner) : result (kind * scanner) :=
   match fuel with
   | O => OutOfFuel
   | S n =>
-    if chr_is s 92 then bind (escape n s) (quoted_loop n q k enl eeof)
+    if chr_is s 92 then bind (escape n s) (quoted_loop n q k enul enl eeof)
     else if chr_is s q then Ok (k, nextchar s)
+    else if chr_is s 0 then Error (sloc s) enul
     else if chr_is s 10 then Error (sloc s) enl
     else match chr s with
          | None => Error (sloc s) eeof
-         | Some _ => quoted_loop n q k enl eeof (nextchar s)
+         | Some _ => quoted_loop n q k enul enl eeof (nextchar s)
          end
   end.
 
 Definition charconst (fuel : nat) (s : scanner) : result (kind * scanner) :=
-  quoted_loop fuel 39 TCHARCONST ENewlineInChar EEOFInChar (nextchar (set_usebuf s)).
+  quoted_loop fuel 39 TCHARCONST ENullInChar ENewlineInChar EEOFInChar (nextchar (set_usebuf s)).
 
 Definition stringlit (fuel : nat) (s : scanner) : result (kind * scanner) :=
-  quoted_loop fuel 34 TSTRINGLIT ENewlineInString EEOFInString (nextchar (set_usebuf s)).
+  quoted_loop fuel 34 TSTRINGLIT ENullInString ENewlineInString EEOFInString (nextchar (set_usebuf s)).
 
 (* ---- comment ---- *)
 Fixpoint linecomment_loop (fuel : nat) (s : scanner) : result scanner :=   (* do nextchar(s); while (chr != '\n' && chr != EOF); *)
